@@ -670,6 +670,63 @@ func init() {
 		}
 		return Tuple{mkInt(64, uint64(n)), err}
 	}
+	// generic copy loop standing in for the sendfile/splice fast paths
+	I["(*os.File).ReadFrom"] = func(fr *frame, fn *ssa.Function, args []Value) Value {
+		r := fr.r
+		o := r.fileOf(args[0])
+		src := args[1].(Iface)
+		buf := r.newObj(32*1024, "ReadFrom-buf")
+		total := int64(0)
+		for {
+			res, ok := r.callMethodIfAny(fr, src, "Read", Slice{O: buf, Len: 32 * 1024, Cap: 32 * 1024})
+			if !ok {
+				unsupported("ReadFrom: source has no Read")
+			}
+			t := res.(Tuple)
+			n := int64(r.concInt(t[0], "read-n"))
+			if n > 0 {
+				if o.std {
+					total += n
+				} else {
+					if o.closed || !r.vos.writable(o) {
+						return Tuple{mkInt(64, uint64(total)), r.errnoValue(eBADF)}
+					}
+					r.vos.crashPoint("write")
+					if r.vos.fault("write") {
+						r.vos.event("write", o.path, o.pos, n, "EIO(injected)")
+						return Tuple{mkInt(64, uint64(total)), r.errnoValue(eIO)}
+					}
+					r.vos.pwrite(o, Slice{O: buf, Len: n, Cap: n}, o.pos)
+					r.vos.event("write", o.path, o.pos, n, "ok")
+					o.pos += n
+					total += n
+				}
+			}
+			if e := t[1].(Iface); e.T != nil {
+				eof := r.load(r.global(r.P.ioEOF), 0, errorType).(Iface)
+				if vv := r.valEq(errorType, e, eof); vv.N == nil && vv.C != 0 {
+					return Tuple{mkInt(64, uint64(total)), nilErr}
+				}
+				return Tuple{mkInt(64, uint64(total)), e}
+			}
+			if n == 0 {
+				return Tuple{mkInt(64, uint64(total)), nilErr}
+			}
+		}
+	}
+	I["os.Rename"] = func(fr *frame, fn *ssa.Function, args []Value) Value {
+		r := fr.r
+		from, to := argStr(args[0]), argStr(args[1])
+		f := r.vos.files[from]
+		if f == nil {
+			return r.notExistErr()
+		}
+		delete(r.vos.files, from)
+		f.name = to
+		r.vos.files[to] = f
+		r.vos.event("rename", from, 0, 0, "ok -> "+to)
+		return nilErr
+	}
 	I["(*os.File).Seek"] = func(fr *frame, fn *ssa.Function, args []Value) Value {
 		r := fr.r
 		o := r.fileOf(args[0])
